@@ -395,7 +395,8 @@ def main():
     # check then stands in for the functions it could not reach) and always in the thorough tier.
     bounded = dict(scenarios_run=0, failed=[], note="bounded: finite hand-written scenario set per property, public API, debug+release")
     scen_fail = []
-    if violations or undecided or tier == "thorough":
+    always = bool(spec.get("bounded_always"))  # properties that lean on the (unverifiable) generated lexer: replay on every run
+    if violations or undecided or tier == "thorough" or always:
         try:
             import scenarios as sc
             n_s, scen_fail = sc.run_property(prop)
@@ -419,7 +420,7 @@ def main():
             tail = rp.make_replay(prop, f, path, scen_fail)
             lines_out.append(f"VIOLATION property={prop} replay={path}" + (" " + tail if tail else ""))
         rc = 1
-    elif scen_fail and (undecided or tier == "thorough"):
+    elif scen_fail and (undecided or tier == "thorough" or always):
         # the verifier could not decide (or proved the contracts) but a concrete scenario contradicts the statement
         f0 = dict(unit=None, fn=None, kind="bounded-scenario", tags=[], clause=None, repo_loc=None, highlight=None,
                   message="bounded stand-in: a scenario's observed outcome differs from what the property statement prescribes"
